@@ -367,6 +367,11 @@ def r_dom_store(ctx):
     good = M.is_param(a[1], index=1) and a[1][1] == b.name and M.is_param(a[2], index=3) and a[2][1] == b.name and other(a[3], 'state') and other(a[4], 'value')
     ctx.check(good, 'R10.3', 'retain/partial_cmp-operands', c, c.loc(pbb), 'partial_cmp(new state, new value, stored state, stored value): Less means the NEW state is dominated',
               'partial_cmp is called with (%s)' % ', '.join(M.show(x) for x in a[1:]))
+    # every stored entry is compared (no early exit once a dominator was found: the threshold is the min over ALL dominators)
+    r_ = c.reach([(0, 0)], avoid=[c.term_point(pbb)])
+    ctx.check(not any(p_ in r_ for p_ in ret_points(c)), 'R10.3', 'retain/compares-every-entry', c, c.loc(pbb),
+              'the retain closure compares the query with every stored entry (no path skips partial_cmp)',
+              'the retain closure can return without comparing the entry (early exit): the threshold is no longer the minimum over all dominators and dominated entries are not dropped')
     # which parent locals are written through the captures
     ws = writes(c)
     dom_var = [d for (pt, d, v, s) in ws if M.is_const(v, True) and isinstance(d, tuple) and d[0] == 'var']
